@@ -221,7 +221,7 @@ def rule_rtc(ctx: Ctx):
     rep.ok("C03.rtc", em.loc(), "event-name-as-action adapter (`event_method`) re-enters through Event.__call__ by calling the Event object")
 
 
-def rule_first(ctx: Ctx):
+def rule_first(ctx: Ctx, rule: str = "C03.first"):
     rep, k = ctx.rep, ctx.k
     S = f"self.{k.sentinel_attr}"
     for eng in k.engines:
@@ -244,17 +244,17 @@ def rule_first(ctx: Ctx):
             n += 1
             if v == "None":
                 ok = all(facts.get(t) is True for t in trigs)
-                rep.check(ok, "C03.first", fn.loc(), f"{eng.name}: None is returned only when no processed event produced a result",
+                rep.check(ok, rule, fn.loc(), f"{eng.name}: None is returned only when no processed event produced a result",
                           fn.key, f"return None with trigger results {trigs} and sentinel facts {facts}")
             elif v in trigs:
                 i = trigs.index(v)
                 ok = all(facts.get(t) is True for t in trigs[:i]) and facts.get(v) is False
-                rep.check(ok, "C03.first", fn.loc(), f"{eng.name}: the caller gets the result of the first event it caused to be processed",
+                rep.check(ok, rule, fn.loc(), f"{eng.name}: the caller gets the result of the first event it caused to be processed",
                           fn.key, f"return {v} with trigger results {trigs} and sentinel facts {facts}")
             else:
-                rep.violation("C03.first", fn.loc(), f"{eng.name}: the loop returns `{xshow(lp.path.value, lp.path.events)}`, not a trigger result",
+                rep.violation(rule, fn.loc(), f"{eng.name}: the loop returns `{xshow(lp.path.value, lp.path.events)}`, not a trigger result",
                               fn.key, f"return {v}")
-        rep.floor("C03.first", f"normal exits of {eng.name}.processing_loop", n, 3)
+        rep.floor(rule, f"normal exits of {eng.name}.processing_loop", n, 3)
         tr = k.engine_fn(eng, "_trigger")
         seen = False
         for p in ctx.paths(tr, exc_edges="none"):
@@ -262,7 +262,7 @@ def rule_first(ctx: Ctx):
                     any(isinstance(c, ast.Constant) and c.value == "__initial__" for c in [b.term.left] + b.term.comparators)]
             if init and init[0].x["taken"] and p.kind == "return":
                 seen = True
-                rep.check(show(p.value) == S, "C03.first", tr.loc(),
+                rep.check(show(p.value) == S, rule, tr.loc(),
                           f"{eng.name}: initial activation yields the sentinel, so it never becomes a caller's result", tr.key,
                           f"return {show(p.value)}")
         if not seen:
